@@ -535,10 +535,16 @@ def run_object_memo(acc):
 
 
 def shards(tier, seed):
-    depth = 3 if tier == "quick" else 4
     out = [("T", 0, None)]
     for e in EVENTS:
-        out.append(("T", depth, list(e)))
+        if tier == "quick":
+            out.append(("T", 3, list(e)))
+        else:
+            # thorough: depth 3 with every probe on its own replayed copy on EVERY transition, and depth 4 with the probe
+            # vector asked in sequence on every NEW state (depth 4 with per-probe replays on every transition is 175 k
+            # transitions x 17 replays: 50-90 minutes on 16 cores — it was run while the check was built, see DESIGN §7)
+            out.append(("T", 3, list(e), "all-per-probe"))
+            out.append(("T", 4, list(e), "new-sequential"))
     dD = 2 if tier == "quick" else 3
     out.append(("D", 0, None))
     for e in BundledDriver.EV:
@@ -551,12 +557,13 @@ def shards(tier, seed):
 
 
 def run_shard(acc, shard, tier, seed):
-    which, depth, first = shard
+    which, depth, first = shard[:3]
+    mode = shard[3] if len(shard) > 3 else ("new-sequential" if tier == "quick" else "all-per-probe")
     if which == "objmemo":
         return run_object_memo(acc)
-    drv = CacheDriver(sequential=(tier == "quick")) if which == "T" else (GroupMemoDriver() if which == "G" else BundledDriver())
+    drv = CacheDriver(sequential=(mode == "new-sequential")) if which == "T" else (GroupMemoDriver() if which == "G" else BundledDriver())
     roots = [()] if first is None else [(tuple(first),)]
-    explore.explore(drv, acc, depth, roots=roots, oracle_on="new" if tier == "quick" else "all")
+    explore.explore(drv, acc, depth, roots=roots, oracle_on="new" if (mode == "new-sequential" and which == "T") or tier == "quick" else "all")
     acc.dim(f"events[{which}]", len(drv.events()))
 
 
@@ -573,10 +580,14 @@ def replay(rec):
         drv.outcome_oracle(acc, s, hist, outs)
         drv.oracle(acc, s, hist, outs)
         return tuple(site) in {tuple(v["site"]) for v in acc.violations}, {}
-    drv = BundledDriver() if "bundled" in site[0] else CacheDriver(sequential=(rec.get("tier", "quick") == "quick"))
     hist = tuple(tuple(e) for e in case["history"])
-    s, outs = explore.run_history(drv, hist)
-    drv.oracle(acc, s, hist, outs)
+    # the probe vector is asked in sequence on one copy (quick, thorough depth 4) or probe by probe on separate copies
+    # (thorough depth 3): the record does not say which, so both ways are tried
+    for drv in ([BundledDriver()] if "bundled" in site[0] else [CacheDriver(sequential=True), CacheDriver(sequential=False)]):
+        s, outs = explore.run_history(drv, hist)
+        drv.oracle(acc, s, hist, outs)
+        if tuple(site) in {tuple(v["site"]) for v in acc.violations}:
+            break
     sites = {tuple(v["site"]) for v in acc.violations}
     return tuple(site) in sites, {"sites_seen": sorted(sites)[:20]}
 
@@ -584,7 +595,7 @@ def replay(rec):
 MANIFEST = {
     "category": "model_checking",
     "technique": "explicit-state BFS over query/state-change histories on the real registry with fingerprint dedup; differential oracle against a fresh registry brought to the same declarative state; per-probe replays",
-    "text": "All histories up to depth 3 (4 thorough) over 27 events (11 query kinds that fill RegistryCache, the per-context overlays, the base-unit cache, the parse cache and the process-wide lru_caches; 4 "
+    "text": "All histories up to depth 3 (thorough: depth 3 with per-probe replays on every transition plus depth 4 with the probe vector on every new state) over 29 events (11 query kinds that fill RegistryCache, the per-context overlays, the base-unit cache, the parse cache and the process-wide lru_caches; 4 "
     "defines including one that collides with a prefixed reading and one that defines an EXISTING unit again (on an empty context stack); a parameterised context entered without and with its keyword; enabling/disabling two unit-redefining contexts; default_system = fsys / isys / None; touching a second registry that defines the same names "
     "differently with another numeric type; deepcopy) are replayed on a generated registry. In every distinct state each of 15 probes is answered on its own replayed copy and must equal the answer of a "
     "fresh registry given the same definitions, default system and context stack; the second registry must keep its own fresh answers. The bundled registry is explored at depth 2 (3) over 14 events with 8 probes. Per-object memo: 7 units x scalar/ndarray x every ordered pair of 11 in-place operations, with and without reading the attributes between the two, (*=, /=, //=, **=, ito to "
